@@ -13,17 +13,18 @@ TRUSTED = [
     'py_json_contains / py_json_array_length, the literal list of SQLiteBuilder.JSON_NONZERO, json.dumps text, ArrayMixin._index and py_array_index / py_array_slice; '
     'tied on every run by vm_compute comparison with the real functions (direct calls) and the real translator (index ASTs on sqlite and postgres providers)',
     'reference semantics: Python indexing / truthiness / len on the value tree (validated against CPython in the same run); Python slicing = Base/Seg.py_slice',
-    'PostgreSQL array subscripts / slices: documentation model (1-based, NULL out of range, slices clamped), not executed; PostgreSQL JSON only as path text',
+    'PostgreSQL: documentation models, not executed: array subscripts / slices (1-based, NULL out of range, slices clamped), jsonb equality in JSON_NONZERO (numeric), and the text[] literal syntax read by #> (Model pg_array, mirrored by c29_impl.pg_array_parse and compared with it on every run)',
+    'the bind-parameter keys of parameterised JSON paths are recorded from the real SQLBuilder.build_json_path by wrapping make_composite_param inside the check process',
     "Python's \\w beyond ASCII is an oracle parameter of the theorems; the correspondence instantiates it from the running re module for the characters used",
     'the end-to-end harness tools/c29_impl.py (SQLite with JSON1 and with provider.json1_available forced to False)',
 ]
 ASSUMPTIONS = [
-    'JSON path items are ints and strs (wildcards [...] / [:] are not modelled); keys without a double quote (the complement is a recorded finding)',
+    'JSON path items are ints and strs; wildcards [...] / [:] exist only for MySQL / Oracle (SQLite must refuse them: checked) and appear in the parameter-key model only; keys without a double quote (the complement is a recorded finding)',
     'where Python raises (missing key, index out of range, indexing a scalar) the query is expected to give NULL / not select the row',
     'an SQL error is accepted only for a negative JSON index on SQLite with JSON1 (json_extract rejects [-1]; documented limitation, an error and not different rows)',
     'indexing into a JSON string (Python would return a character) is not a JSON path access: expected NULL like indexing any scalar',
     'floats in documents are plain decimals as json.dumps writes them (no exponent, no nan/inf; a zero is 0.0 or -0.0: a document written by something else as 0.00 would still be truthy on SQLite); strings without control characters',
-    'comparisons of JSON items with scalars are exercised by the search only (ints and strs), not in the Coq model',
+    'comparisons: == of an item with an int / str constant (CAST model) and == / < between two items (text model) are modelled for the recorded deviations and the exact cases (C29_eq_*_except_known, C29_items_eq_ints); other operators are exercised by the search only',
 ]
 RULE = ('correspondence: generated key lists (identifier-like, needing quotes: spaces, dots, brackets, empty, leading digit, non-ASCII, backslash; negative ints), malformed path texts, '
         'documents of depth <= 3 with null / booleans / ints / decimal floats incl. 0.0 and -0.0 / empty containers, arrays of ints with indexes and bounds in [-2len-2, len+2]; one vm_compute '
@@ -638,6 +639,6 @@ LEVEL_TEXT = ('Machine-checked proof (Coq 8.16.1) over a model of Pony\'s JSON /
               'two recorded PostgreSQL findings: the key null written unquoted, a backslash inside a key not escaped). The remaining deviations (key quoting, len of dict / str, CAST-based ==, text ordering of two items, TypeError escaping the fallback) are refuted by witnesses and '
               'recorded as findings.')
 LEVEL_NOTE = ('Partial: the model is hand-written (tied by vm_compute correspondence with the real functions and index ASTs, and by real queries on SQLite with JSON1 and with the '
-              'fallback forced); JSON comparison operators, wildcards, JSON_CONCAT and PostgreSQL JSON functions are not modelled (PostgreSQL only as path text); \\w beyond ASCII is an oracle.')
+              'fallback forced); JSON_CONCAT and PostgreSQL JSON functions other than the #> path literal are not modelled; ten recorded findings remain (key quoting x2, len of dict / str, CAST-based == x2, text ordering of two items, TypeError escaping the fallback, two PostgreSQL path-text findings); \\w beyond ASCII is an oracle.')
 TECHNIQUE = 'Coq proofs (decimal print/parse round trip, scanner lemmas, structural induction over paths, seg normal form + lia for slices); vm_compute correspondence; end-to-end differential search on SQLite in two modes'
 DESIGN_REF = 'DESIGN.md section 5, C29'
